@@ -236,15 +236,15 @@ Proof.
   cbn [map concat]. rewrite filter_app, map_app, <- IH, <- delivered_one. reflexivity.
 Qed.
 
-Lemma pairwise_attach : forall req streams, nodup_nat (map fst streams) = true ->
+Lemma pairwise_attach : forall streams, nodup_nat (map fst streams) = true ->
   pairwise (map attach streams).
 Proof.
-  intros req; induction streams as [|st streams IH]; simpl; intros H; auto.
+  induction streams as [|st streams IH]; simpl; intros H; auto.
   apply andb_true_iff in H. destruct H as [A B]. split; auto.
   intros t Ht a b Ha Hb. apply in_map_iff in Ht. destruct Ht as [st' [<- Hst']].
   unfold attach in Ha, Hb. apply in_map_iff in Ha, Hb.
   destruct Ha as [x [<- _]]. destruct Hb as [y [<- _]]. simpl.
-  intros E. assert (In (fst st) (map fst streams)) by (rewrite E; apply in_map; auto).
+  intros E. unfold src in *. assert (In (fst st) (map fst streams)) by (rewrite E; apply in_map; auto).
   apply memb_nat_In in H. rewrite H in A. discriminate.
 Qed.
 
@@ -272,11 +272,11 @@ Proof.
   assert (Pk : pos req k <> None) by (apply pos_from_in; exact Hk).
   pose proof (filter_key_le1 req k M 0 Pk HM) as L1.
   pose proof (Permutation_filter' (fun d : doc => key_eqb k (fst d)) _ _ (nmerge_perm (less req) (map attach streams))) as PF.
-  fold M in PF. unfold expected_doc, pick. rewrite delivered_filter.
-  destruct (filter (fun d : doc => key_eqb k (fst d)) M) as [|d [|e F]] eqn:EF.
+  fold M in PF. unfold expected_doc, pick. rewrite delivered_filter. unfold doc in *.
+  destruct (filter (fun d : ids * N => key_eqb k (fst d)) M) as [|d [|e F]] eqn:EF.
   - apply Permutation_sym, Permutation_nil in PF. rewrite PF. reflexivity.
   - apply Permutation_sym, Permutation_length_1_inv in PF. rewrite PF. simpl.
-    assert (Hd : In d (filter (fun d : doc => key_eqb k (fst d)) M)) by (rewrite EF; simpl; auto).
+    assert (Hd : In d (filter (fun d : ids * N => key_eqb k (fst d)) M)) by (rewrite EF; simpl; auto).
     apply filter_In in Hd. destruct Hd as [_ Hd]. apply key_eqb_eq in Hd. subst k. destruct d; reflexivity.
   - simpl in L1. lia.
 Qed.
